@@ -40,6 +40,7 @@ type attOpts struct {
 	markerPct int  // names / alarm ids containing the marker bytes
 	finAtEnd  bool
 	grouped   bool // all 0x1211 first, then the data of all files interleaved, then the 0x1212s
+	holes     int  // >0: one file of 2*holes+1 bytes sent byte by byte, every second byte withheld: that many gaps
 }
 
 // fileName draws a file name valid on the wire for the dialect (no NUL, fits the chunk header).
@@ -58,6 +59,13 @@ func (g *genCtx) fileName(dialect int, used map[string]bool, o attOpts) string {
 			name = []byte(fmt.Sprintf("00_64_6401_%d_%x.jpg", g.r.intn(10), g.r.next()&0xffffff))
 		default:
 			n := 1 + g.r.intn(max)
+			if dialect == 2 && !used["\x00long"] && g.r.chance(12) {
+				// the name field of this dialect's packet header has a one-byte length: names up to 255 bytes are
+				// legal (one per session, so that the 0x1210 body stays below 1024 bytes)
+				n = g.r.pick(128, 200, 254, 255, 255)
+				max = 255
+				used["\x00long"] = true
+			}
 			name = make([]byte, n)
 			for i := range name {
 				c := byte(g.r.next())
@@ -89,11 +97,27 @@ func (g *genCtx) genUpload(ci int, o attOpts) {
 	dialect := p.Att.Dialect
 	used := map[string]bool{}
 	nfiles := 1 + g.r.intn(o.maxFiles)
+	if o.holes > 0 {
+		nfiles = 1
+	}
 	var files []UpFile
 	for f := 0; f < nfiles; f++ {
 		var name string
 		if o.hostile && g.r.chance(70) {
 			name = hostileNames[g.r.intn(len(hostileNames))]
+			if g.r.chance(30) {
+				// composed: components that look harmless one by one and collapse into a climb when "cleaned"
+				parts := []string{"..", "....", "...", ".", "a", "", "..", "x", "....", "..."}
+				seps := []string{"/", "//", "/./", "/"}
+				name = ""
+				if g.r.chance(30) {
+					name = "/"
+				}
+				for k := 2 + g.r.intn(4); k > 0; k-- {
+					name += parts[g.r.intn(len(parts))] + seps[g.r.intn(len(seps))]
+				}
+				name += "x"
+			}
 			if g.r.chance(20) {
 				name = "../" + name
 			}
@@ -113,8 +137,11 @@ func (g *genCtx) genUpload(ci int, o attOpts) {
 		default:
 			size = 1 + g.r.intn(o.chunkMax*o.maxChunks)
 		}
+		if o.holes > 0 {
+			size = 2*o.holes + 1
+		}
 		data := g.r.bytes(size)
-		if g.r.chance(20) && size > 8 {
+		if o.holes == 0 && g.r.chance(20) && size > 8 {
 			copy(data[g.r.intn(size-4):], marker) // file content containing the marker
 		}
 		files = append(files, UpFile{Name: HexStr(name), Data: data, Type: byte(g.r.intn(5))})
@@ -165,6 +192,12 @@ func (g *genCtx) genUpload(ci int, o attOpts) {
 				break
 			}
 		}
+		if o.holes > 0 {
+			chunks = chunks[:0]
+			for off := 0; off < len(f.Data); off++ {
+				chunks = append(chunks, ch{off, 1})
+			}
+		}
 		// arrival order permuted
 		if g.r.chance(60) {
 			for i := len(chunks) - 1; i > 0; i-- {
@@ -181,7 +214,7 @@ func (g *genCtx) genUpload(ci int, o attOpts) {
 		}
 		var withheld []ch
 		for i, c := range chunks {
-			if o.withhold && g.r.chance(35) {
+			if (o.holes > 0 && c.off%2 == 1) || (o.holes == 0 && o.withhold && g.r.chance(35)) {
 				withheld = append(withheld, c)
 				continue
 			}
